@@ -289,6 +289,13 @@ func c09Eval(c *fw.Ctx, k c09Case) (sig, desc string, nontrivial bool) {
 		if cls != wantCls {
 			return fmt.Sprintf("C09/glob/verdict/want-%s-got-%s", wantCls, cls), fmt.Sprintf("%s: %s %s", ctx, cls, es), nontrivial
 		}
+		// the same run with the base directories spelled in other valid ways must not change anything
+		for _, sp := range [][2]string{{sdir + "/", ddir + "/"}, {filepath.Dir(sdir) + "/./s", filepath.Dir(ddir) + "//d"}, {sdir + "/m/..", ddir}} {
+			c2, t2, e2 := run(sp[0], "m/*.wsp", sp[1], "")
+			if c2 != cls || c12Norm(t2) != c12Norm(text) {
+				return "C09/glob/base-spelling", fmt.Sprintf("%s: with -src-base %q -dest-base %q the run gives %s %s and another listing than with the clean spelling (%s)", ctx, sp[0], sp[1], c2, e2, cls), nontrivial
+			}
+		}
 		got, _, _, bad := parseDiffLines(text)
 		if bad != "" || len(got) != len(want) {
 			return "C09/glob/listing", fmt.Sprintf("%s: %d slots listed over the three files, want %d %s", ctx, len(got), len(want), bad), nontrivial
